@@ -330,6 +330,9 @@ func (c *HCFacts) Lean(b *strings.Builder) {
 		}
 	}
 	fmt.Fprintf(b, "/-- registered Lua functions from which one of those callbacks is reachable: (table.name, callback) -/\ndef cInternalRoutes : List (String × String) := %s\n\n", hLeanTuples(hT2(registered)))
+	fmt.Fprintf(b, "/-- sqlcheck.c, `sqlcheck_is_readonly_sql` (the only gate of `db.query`): leading keywords for which it answers non-zero: (keyword, prefix|exact|pragma|unrecognised) -/\ndef sqlReadonlyFirst : List (String × String) := %s\n\n", hLeanTuples(hT2(c.SQLReadonlyFirst)))
+	fmt.Fprintf(b, "/-- sqlcheck.c, `sqlcheck_is_permitted_pragma`: the pragmas it admits: (name, prefix|exact|unrecognised) -/\ndef sqlReadonlyPragmas : List (String × String) := %s\n\n", hLeanTuples(hT2(c.SQLReadonlyPragmas)))
+	fmt.Fprintf(b, "/-- registered Lua functions that call sqlite3_prepare*, with the gate calls in front of it: (table.name, gates) -/\ndef cPrepareGates : List (String × String) := %s\n\n", hLeanTuples(hT2(c.PrepareGates)))
 	var refusing []string
 	for _, r := range c.Refusing {
 		refusing = append(refusing, r)
